@@ -1,5 +1,5 @@
 From Coq Require Import Extraction ExtrOcamlBasic.
-From LV Require Import Lib.Bytes Lib.Prelude Model.C16_Env Model.C16_Wire Model.C16_Url Model.C16_All Model.C16_Attrs Model.C16_Embed.
+From LV Require Import Lib.Bytes Lib.Prelude Model.C16_Env Model.C16_Wire Model.C16_Url Model.C16_All Model.C16_Attrs Model.C16_Embed Model.C16_Fee.
 Extraction Language OCaml.
 Extraction "c16_model.ml"
   prelude_byte_of_N prelude_N_of_byte prelude_Z_of_N prelude_Z_opp prelude_nat_of_N prelude_N_of_nat
@@ -9,4 +9,5 @@ Extraction "c16_model.ml"
   encode_all decode_all purchase_encode_all purchase_decode_all v1_unsigned_payload
   url_parse url_print canon forbidden hard_forbidden
   hexlify unhexlify claim_id_of_hash hash_of_claim_id
-  embed extract_payload media_step.
+  embed extract_payload media_step
+  fee_address fee_address_bytes sig_run sig_to_bytes sig_of_env.
